@@ -80,7 +80,7 @@ def main(tier):
     jobs = [(job, (1, 0, tier)), (job, (1, 1, tier)), (job, (0, 0, tier))]
     if tier == "thorough":
         jobs += [(job, (2, 0, tier)), (job, (2, 1, tier))]
-    run.extend(check.run_jobs(jobs, timeout=1500 if tier == "quick" else 14000))
+    run.extend(check.run_jobs(jobs, timeout=1500 if tier == "quick" else 3000))
     run.bounds += ["scalar residual R -> R^1 with uninterpreted F and J, one unknown; max_iter in {0,1} quick, {0,1,2} thorough; both trust-region strategies; ftol = ptol = 1e-6"]
     run.assumptions += ["layer R (exact arithmetic): the rounding error of evaluating f is outside", "convergence to the minimiser within 1e-3 (an iterative-method statement) is not claimed",
                         "multi-dimensional residuals: Eigen's stableNorm scaling forks on every |.| comparison; not explored"]
